@@ -333,6 +333,14 @@ def registry(ctx, prog):
     if len(inserts) != 1 or not removes or not waits:
         raise AnchorMissing("broker::remote: registration (insert %d) / removal (%d) / wait (%d) of the will decider not found" % (len(inserts), len(removes), len(waits)))
     rets = return_blocks(body)
+    # "is the entry still ours?": a test on the task's own receiver (its only sender lives in the table) that decides
+    # a removal — on the other edge a newer connection of the client id has taken the entry out already
+    owners = set()
+    for bb, t in body.calls():
+        if not body.is_cleanup(bb) and re.search(r"flume::Receiver::<T>::(sender_count|is_disconnected)$", callee_path(t)):
+            if any(dominates(body, bb, r) for r in removes):
+                owners.add(bb)
+    waits = list(waits) + sorted(owners)
     if must_pass(body, inserts, rets, via_blocks=set(removes) | set(waits)):
         ctx.ok(rule, body.id, "a registered decider is removed, or waited on, on every path to the end of the task")
     else:
